@@ -370,4 +370,23 @@ theorem reachable_of_run (c : Cfg) (s s' : St) (es : List Ev) (hs : Reachable c 
     · rename_i s1 h1; exact ih s1 (.step e hs h1) h
     · cases h
 
+/-- what `coordinator()` dials after a successful FindCoordinator: host and port of the answer, joined the way
+`net.JoinHostPort` does (a host with a colon — an IPv6 literal — goes in brackets) -/
+def coordinatorAddress (host : String) (port : Int) : String :=
+  if host.contains ':' then "[" ++ host ++ "]:" ++ toString port else host ++ ":" ++ toString port
+
+/-- The documented defaults of `ConsumerGroupConfig` (field comments "Default: …"; durations in milliseconds): what
+"the configured interval / back-off" means when the program configures nothing. -/
+def documentedGroupDefaults : List (String × String) :=
+  [("GroupBalancers", "RangeGroupBalancer,RoundRobinGroupBalancer"), ("HeartbeatInterval", "3000"),
+   ("PartitionWatchInterval", "5000"), ("SessionTimeout", "30000"), ("RebalanceTimeout", "30000"),
+   ("JoinGroupBackoff", "5000"), ("RetentionTime", "-1"), ("StartOffset", "FirstOffset"), ("Timeout", "5000")]
+
+/-- the `defaults` observation of the driver, as the documentation wants it: the config `Validate` leaves behind, and what
+a Reader that sets only Brokers/GroupID/Topic puts into JoinGroup / OffsetCommit and where it starts -/
+def expectedDefaultsObservation : String :=
+  "validate=true hb=3000 session=30000 rebalance=30000 backoff=5000 watchiv=5000 retention=-1 start=-2 timeout=5000 " ++
+  "balancers=range,roundrobin watch=false r.protocols=range,roundrobin r.session=30000 r.rebalance=30000 " ++
+  "r.retention=-1 r.start=t/0@-2 r.watchpolled=no"
+
 end KV.Group
